@@ -217,6 +217,27 @@ static void c17() {
     if (TimePeriod(a).compareTo(TimePeriod(b)) != want) { J j; j.num("a", a).num("b", b); witness("c17:period-compareTo", "compareTo disagrees with signed length", j); }
     if (i < 3) { J j; j.str("kind", "period-pair").num("a", a).num("b", b).num("compareTo", TimePeriod(a).compareTo(TimePeriod(b))); sample(j); }
   }
+  // compareTo on periods built from components with every documented sign value (>= 0 counts as +1, < 0 as -1),
+  // zero-length periods of either sign included, and on negated periods
+  {
+    static const int32_t lens[] = {0, 1, 2, 59, 60, 61, 3599, 3600, 3601, 86399, 86400, 460800, 921598, 921599};
+    static const int8_t signs[] = {-128, -2, -1, 0, 1, 2, 127};
+    for (int32_t la : lens) for (int8_t sa : signs) for (int32_t lb : lens) for (int8_t sb : signs) {
+      TimePeriod a((uint8_t) (la / 3600), (uint8_t) (la / 60 % 60), (uint8_t) (la % 60), sa);
+      TimePeriod b((uint8_t) (lb / 3600), (uint8_t) (lb / 60 % 60), (uint8_t) (lb % 60), sb);
+      int32_t va = sa >= 0 ? la : -la, vb = sb >= 0 ? lb : -lb;
+      int want = va < vb ? -1 : (va == vb ? 0 : 1);
+      CNT.add("c17.period_component_pairs");
+      if (va == 0 && vb == 0 && (sa < 0) != (sb < 0)) CNT.add("c17.period_zero_pairs_of_opposite_sign");
+      if (a.toSeconds() != va || a.compareTo(b) != want) { J j; j.num("a_len", la).num("a_sign", sa).num("b_len", lb).num("b_sign", sb).num("got", a.compareTo(b)).num("want", want); witness("c17:period-compareTo-components", "compareTo of component-built periods disagrees with signed length", j); }
+      TimePeriod na = a; time_period_mutation::negate(na);
+      if (sa != -128) {
+        int32_t vna = -sa >= 0 ? la : -la;   // negate flips the sign byte; a sign byte of 0 stays 0 (counts as +)
+        int w2 = vna < vb ? -1 : (vna == vb ? 0 : 1);
+        if (na.toSeconds() != vna || na.compareTo(b) != w2) { J j; j.num("a_len", la).num("a_sign", sa).num("b_len", lb).num("b_sign", sb).num("got", na.compareTo(b)).num("want", w2); witness("c17:period-compareTo-negated", "compareTo of a negated period disagrees with signed length", j); }
+      }
+    }
+  }
   // TimePeriod increment helpers from every byte value
   for (unsigned v = 0; v < 256; v++) {
     TimePeriod p((uint8_t) v, (uint8_t) v, 0);
